@@ -211,7 +211,8 @@ DEREF_FNS = ("deref", "as_str", "as_slice", "as_ref", "borrow", "deref_mut", "as
 class Analysis:
     """Runs the fixpoint for one body; afterwards `state_at_term[bi]` is the state just before block bi's terminator."""
 
-    def __init__(self, body, program, facts, len_alias=None, max_rounds=60, engine=None, invariants=None, assume=None):
+    def __init__(self, body, program, facts, len_alias=None, max_rounds=60, engine=None, invariants=None, assume=None, entry_rel=None):
+        self.entry_rel = entry_rel or []      # [(arg local | None, arg local | None, c)]: x - y <= c at entry (None = 0); from a caller's state
         self.assume = assume or {}      # argument local (or "upvar:<name>" of a closure) -> constant value assumed at entry (bounded instantiation)
         self.is_closure = bool(facts is not None and facts.heads.get(body.path, {}).get("bkind") == "closure")
         self.engine = engine
@@ -474,6 +475,40 @@ class Analysis:
                 self.untracked.add(p["l"])
         self.mutborrow = alias
         self.pos_sums = self._find_position_sums()
+
+    def call_entry_relations(self, bi):
+        """[(i, j, c)] over the callee's parameter locals (1-based; None = the constant 0): what the state before the call
+        terminator of block bi entails about the integer arguments, pairwise and against 0."""
+        t = self.b.blocks[bi]["t"]
+        out = []
+        for key, z0 in (self.states_at(bi) or []):
+            z = z0.copy()
+            z.close()
+            lins = []
+            for i, a in enumerate(t["args"], 1):
+                ty = self._ty_of_operand(a)
+                lins.append((i, self.lin(z, a, ty) if ty in WIDTH else None))
+            rel = {}
+            for i, la in lins:
+                if la is None:
+                    continue
+                for j, lb in lins + [(None, (ZERO, 0))]:
+                    if j == i or lb is None:
+                        continue
+                    d = z.get(la[0], lb[0])          # la0 - lb0 <= d
+                    if d is not None:
+                        rel[(i, j)] = d + la[1] - lb[1]
+                    d2 = z.get(lb[0], la[0])
+                    if d2 is not None:
+                        rel[(j, i)] = d2 + lb[1] - la[1]
+            out.append(rel)
+        if not out:
+            return []
+        # keep what every partition entails (weakest bound)
+        keys = set(out[0])
+        for r in out[1:]:
+            keys &= set(r)
+        return [(i, j, max(r[(i, j)] for r in out)) for (i, j) in sorted(keys, key=str)]
 
     def _find_position_sums(self):
         """{id(rvalue): operand of the container}: additions `k + p` where p is the payload of
@@ -2038,6 +2073,10 @@ class Analysis:
             else:
                 nm = self._register("_%d" % l, l, "_%d" % l, set(), b.locals[l] in UNSIGNED)
             entry.assign(nm, ZERO, v)
+        for x, y, c in self.entry_rel:
+            tx = ZERO if x is None else self._register("_%d" % x, x, "_%d" % x, set(), b.locals[x] in UNSIGNED)
+            ty = ZERO if y is None else self._register("_%d" % y, y, "_%d" % y, set(), b.locals[y] in UNSIGNED)
+            entry.add(tx, ty, c)
         self.inv_roots = self._inv_roots()
         own = self.P.direct.get(b.path, {}) if self.P is not None else {}
         self.is_inv_writer = any((adt, f) in own for adt, specs in self.inv.items() for sp in specs for f in (sp[0], sp[2]))
